@@ -5,6 +5,7 @@ package main
 import (
 	"fmt"
 	"go/ast"
+	"go/constant"
 	"go/token"
 	"go/types"
 	"sort"
@@ -429,4 +430,752 @@ func c15RandInFields(p *Prog, r *Report, rule string) {
 		})
 	}
 	r.Analysed["rand_values_stored_in_fields"] = n
+}
+
+func init() {
+	for id, rule := range map[string]string{"C03": "C03.l", "C07": "C07.e"} {
+		id, rule := id, rule
+		wrapRule(id, func(p *Prog, r *Report) {
+			r.Rule(rule, "the snapshot point the commit is checked against is the one the caller passed: UpdateTx (helpers spliced in) never writes its filter parameter or the BeforeSeq it carries (a commit whose bound was dropped on some 'nothing can have changed' shortcut publishes over versions it never saw); and a transaction object taken from the pool starts without keys: the pool's clear function or the registry's Put empties its key map unconditionally (the conflict test runs for every key of the map, also for one a previous user left behind)")
+			c03BoundReachesTheCheck(p, r, rule)
+		})
+	}
+	for id, rule := range map[string]string{"C13": "C13.l", "C14": "C14.m"} {
+		id, rule := id, rule
+		wrapRule(id, func(p *Prog, r *Report) {
+			r.Rule(rule, "a finished transaction's store is given back to the pool once, after its last use: in every function of the core use case that releases a pooled transaction, nothing touches the object after the Release (in execution order: the body, then the deferred calls last-registered first, helpers spliced in) - an object released twice is handed to two later transactions, which then share one write set")
+			c13NoUseAfterRelease(p, r, rule)
+		})
+	}
+	wrapRule("C15", func(p *Prog, r *Report) {
+		r.Rule("C15.h", "a job handed to the worker pool owns what it reads: a function literal that becomes the Fn of a wpool.Event, or the body of a go statement, captures no local variable that the enclosing function assigns again after the variable's declaration (the worker reads the variable when it runs, concurrently with the next assignment)")
+		c15JobsCaptureNoMovingVariable(p, r, "C15.h")
+	})
+}
+
+// c03BoundReachesTheCheck (seeded C03-M, C03-N).
+func c03BoundReachesTheCheck(p *Prog, r *Report, rule string) {
+	fi := p.Func(kUpdateTx)
+	if fi == nil {
+		r.Undecided(rule, kUpdateTx, "", "core.UpdateTx not found")
+		return
+	}
+	info := fi.Pkg.TypesInfo
+	var filterObj types.Object
+	for _, fld := range fi.Decl.Type.Params.List {
+		for _, nm := range fld.Names {
+			if o := info.Defs[nm]; o != nil && strings.HasSuffix(o.Type().String(), "model.FileFilter") {
+				filterObj = o
+			}
+		}
+	}
+	cons := kUpdateTx + "#bound-not-written"
+	if filterObj == nil {
+		r.Undecided(rule, cons, p.pos(fi.Decl), "UpdateTx has no FileFilter parameter")
+	} else {
+		f := p.FlatInl(fi)
+		bad := ""
+		rootOf := func(e ast.Expr) types.Object {
+			for {
+				switch x := ast.Unparen(e).(type) {
+				case *ast.SelectorExpr:
+					e = x.X
+					continue
+				case *ast.StarExpr:
+					e = x.X
+					continue
+				case *ast.Ident:
+					o := objOf(info, x)
+					if o != nil {
+						return f.CanonObj(o)
+					}
+					return nil
+				}
+				return nil
+			}
+		}
+		for _, n := range f.Nodes {
+			if n.Ast == nil || n.Synth != "" {
+				continue
+			}
+			walkNoLit(n.Ast, func(x ast.Node) bool {
+				switch st := x.(type) {
+				case *ast.AssignStmt:
+					for _, l := range st.Lhs {
+						if rootOf(l) == filterObj {
+							bad = p.pos(st) + ": " + types.ExprString(l)
+						}
+					}
+				case *ast.UnaryExpr:
+					// &filter / &filter.BeforeSeq handed out: somebody else may write it
+					if st.Op == token.AND && rootOf(st.X) == filterObj {
+						bad = p.pos(st) + ": " + types.ExprString(st)
+					}
+				}
+				return true
+			})
+		}
+		// ... also inside the deferred / transaction literals of the function itself
+		ast.Inspect(fi.Decl.Body, func(x ast.Node) bool {
+			if as, ok := x.(*ast.AssignStmt); ok {
+				for _, l := range as.Lhs {
+					if rootOf(l) == filterObj {
+						bad = p.pos(as) + ": " + types.ExprString(l)
+					}
+				}
+			}
+			return true
+		})
+		r.Check(bad == "", rule, cons, p.pos(fi.Decl), "the filter is only read", "UpdateTx writes the snapshot bound it was given ("+bad+"): the conflict test then runs against a different point than the transaction's snapshot (or not at all), a commit that overlaps an autocommit write or an unnoticed commit publishes over it - a lost update at RepeatableRead / Serializable")
+	}
+	// the recycled object starts empty
+	cons2 := "core.Transaction#recycled-store-starts-empty"
+	var storeField *types.Var
+	if pkg := p.Pkgs["internal/model/core"]; pkg != nil {
+		if tn, ok := pkg.Types.Scope().Lookup("Transaction").(*types.TypeName); ok {
+			if st, ok := tn.Type().Underlying().(*types.Struct); ok {
+				for i := 0; i < st.NumFields(); i++ {
+					if _, isMap := st.Field(i).Type().Underlying().(*types.Map); isMap {
+						storeField = st.Field(i)
+					}
+				}
+			}
+		}
+	}
+	if storeField == nil {
+		r.Undecided(rule, cons2, "", "the key map of core.Transaction not found")
+		return
+	}
+	empties := func(fn *FuncInfo, body *ast.BlockStmt) bool {
+		if body == nil {
+			return false
+		}
+		binfo := fn.Pkg.TypesInfo
+		isStore := func(e ast.Expr) bool {
+			sel, ok := ast.Unparen(e).(*ast.SelectorExpr)
+			return ok && binfo.Uses[sel.Sel] == storeField
+		}
+		for _, st := range body.List {
+			switch s := st.(type) {
+			case *ast.ExprStmt:
+				if c, ok := s.X.(*ast.CallExpr); ok {
+					if id, ok := c.Fun.(*ast.Ident); ok && id.Name == "clear" && len(c.Args) == 1 && isStore(c.Args[0]) {
+						return true
+					}
+				}
+			case *ast.RangeStmt:
+				if isStore(s.X) {
+					del := false
+					ast.Inspect(s.Body, func(y ast.Node) bool {
+						if c, ok := y.(*ast.CallExpr); ok {
+							if id, ok := c.Fun.(*ast.Ident); ok && id.Name == "delete" && len(c.Args) == 2 && isStore(c.Args[0]) {
+								del = true
+							}
+						}
+						return true
+					})
+					if del {
+						return true
+					}
+				}
+			case *ast.AssignStmt:
+				if len(s.Lhs) == 1 && isStore(s.Lhs[0]) && s.Tok == token.ASSIGN {
+					return true
+				}
+			}
+		}
+		return false
+	}
+	emptiesDeep := func(fn *FuncInfo, body *ast.BlockStmt) bool {
+		if empties(fn, body) {
+			return true
+		}
+		ok := false
+		if body != nil {
+			for _, st := range body.List {
+				if es, isE := st.(*ast.ExprStmt); isE {
+					if c, isC := es.X.(*ast.CallExpr); isC {
+						if h := p.staticCallee(fn.Pkg, c); h != nil && h.Decl.Body != nil && empties(h, h.Decl.Body) {
+							ok = true
+						}
+					}
+				}
+			}
+		}
+		return ok
+	}
+	where := ""
+	if put := p.Func("(*internal/model/core.Transactions).Put"); put != nil && emptiesDeep(put, put.Decl.Body) {
+		where = "Transactions.Put"
+	}
+	// the clear function given to the pool of transactions
+	for _, k := range sortedFuncKeys(p) {
+		cfi := p.Funcs[k]
+		if cfi.Decl.Body == nil || shortPath(cfi.Pkg.PkgPath) != "internal/usecase/core" {
+			continue
+		}
+		ast.Inspect(cfi.Decl.Body, func(x ast.Node) bool {
+			c, ok := x.(*ast.CallExpr)
+			if !ok || !p.callIs(cfi.Pkg, c, "internal/model/core.NewPool") || len(c.Args) != 1 {
+				return true
+			}
+			tv, ok := cfi.Pkg.TypesInfo.Types[c]
+			if !ok || !strings.Contains(tv.Type.String(), "core.Transaction]") {
+				return true
+			}
+			switch a := ast.Unparen(c.Args[0]).(type) {
+			case *ast.FuncLit:
+				if emptiesDeep(cfi, a.Body) {
+					where += " pool clear function"
+				}
+			default:
+				if fn, _ := typeutil.Callee(cfi.Pkg.TypesInfo, &ast.CallExpr{Fun: a}).(*types.Func); fn != nil {
+					if h := p.funcOfObj(fn); h != nil && emptiesDeep(h, h.Decl.Body) {
+						where += " pool clear function"
+					}
+				}
+				if sel, ok := a.(*ast.SelectorExpr); ok {
+					if fn, ok := cfi.Pkg.TypesInfo.Uses[sel.Sel].(*types.Func); ok {
+						if h := p.funcOfObj(fn); h != nil && emptiesDeep(h, h.Decl.Body) {
+							where += " pool clear function"
+						}
+					}
+				}
+			}
+			return true
+		})
+	}
+	r.Check(where != "", rule, cons2, "", "emptied by "+strings.TrimSpace(where), "neither the pool's clear function nor Transactions.Put empties the key map of a recycled transaction: the object keeps the keys of its previous user (with empty lists); reads tolerate that, the conflict test of UpdateTx does not - a snapshot commit fails with ErrTxSerialization over a key it never wrote")
+}
+
+// c13NoUseAfterRelease (seeded C13-M).
+func c13NoUseAfterRelease(p *Prog, r *Report, rule string) {
+	n := 0
+	for _, k := range sortedFuncKeys(p) {
+		fi := p.Funcs[k]
+		if fi.Decl.Body == nil || shortPath(fi.Pkg.PkgPath) != "internal/usecase/core" || fi.Decl.Recv == nil || !fi.Obj.Exported() {
+			continue
+		}
+		info := fi.Pkg.TypesInfo
+		// events in execution order
+		type event struct {
+			obj     types.Object
+			release bool
+			pos     string
+		}
+		var evs []event
+		var visit func(owner *FuncInfo, node ast.Node, bind map[types.Object]types.Object, depth int)
+		canon := func(bind map[types.Object]types.Object, o types.Object) types.Object {
+			for i := 0; i < 6; i++ {
+				if b, ok := bind[o]; ok {
+					o = b
+				} else {
+					break
+				}
+			}
+			return o
+		}
+		isTx := func(o types.Object) bool {
+			return o != nil && strings.HasSuffix(o.Type().String(), "core.Transaction") && strings.HasPrefix(o.Type().String(), "*")
+		}
+		visit = func(owner *FuncInfo, node ast.Node, bind map[types.Object]types.Object, depth int) {
+			oinfo := owner.Pkg.TypesInfo
+			var deferred []*ast.DeferStmt
+			walkNoLit(node, func(x ast.Node) bool {
+				switch st := x.(type) {
+				case *ast.DeferStmt:
+					deferred = append(deferred, st)
+					return false
+				case *ast.CallExpr:
+					// release?
+					if p.callIs(owner.Pkg, st, "(*internal/model/core.Pool).Release") {
+						for _, a := range st.Args {
+							if o := objOf(oinfo, a); isTx(o) {
+								evs = append(evs, event{canon(bind, o), true, p.pos(st)})
+							}
+						}
+						return false
+					}
+					// a helper of the package: spliced in
+					if h := p.staticCallee(owner.Pkg, st); h != nil && h.Pkg == owner.Pkg && h.Decl.Body != nil && depth < 3 && h.Decl.Recv != nil && shortPath(h.Pkg.PkgPath) == "internal/usecase/core" {
+						nb := map[types.Object]types.Object{}
+						for k2, v := range bind {
+							nb[k2] = v
+						}
+						args := argExprs(st, h)
+						for i, po := range paramObjs(h) {
+							if po != nil && args[i] != nil {
+								if ao := objOf(oinfo, args[i]); ao != nil {
+									nb[po] = canon(bind, ao)
+								}
+							}
+						}
+						visit(h, h.Decl.Body, nb, depth+1)
+						return false
+					}
+					// any other use of a transaction object: receiver or argument
+					if sel, ok := ast.Unparen(st.Fun).(*ast.SelectorExpr); ok {
+						if o := objOf(oinfo, sel.X); isTx(o) {
+							evs = append(evs, event{canon(bind, o), false, p.pos(st)})
+						}
+					}
+					for _, a := range st.Args {
+						if o := objOf(oinfo, a); isTx(o) {
+							evs = append(evs, event{canon(bind, o), false, p.pos(st)})
+						}
+					}
+				}
+				return true
+			})
+			for i := len(deferred) - 1; i >= 0; i-- {
+				d := deferred[i]
+				if lit, ok := ast.Unparen(d.Call.Fun).(*ast.FuncLit); ok {
+					visit(owner, lit.Body, bind, depth)
+				} else {
+					visit(owner, &ast.ExprStmt{X: d.Call}, bind, depth)
+				}
+			}
+		}
+		visit(fi, fi.Decl.Body, map[types.Object]types.Object{}, 0)
+		released := map[types.Object]string{}
+		bad := ""
+		any := false
+		for _, e := range evs {
+			if at, was := released[e.obj]; was && bad == "" {
+				what := "used"
+				if e.release {
+					what = "released again"
+				}
+				bad = fmt.Sprintf("%s is released to the pool at %s and %s at %s", e.obj.Name(), at, what, e.pos)
+			}
+			if e.release {
+				any = true
+				released[e.obj] = e.pos
+			}
+		}
+		if !any {
+			continue
+		}
+		n++
+		_ = info
+		r.Check(bad == "", rule, k+"#released-once-and-last", p.pos(fi.Decl), "nothing touches a transaction after its Release",
+			bad+": the pool hands the object to the next Acquire at once - released twice it backs two later transactions (one loses its writes when the other is registered, a commit of one publishes the other's uncommitted writes); unlocked after the release it is unlocked under its next user")
+	}
+	r.Floor(rule, "functions-that-release-a-pooled-transaction", n, 2)
+}
+
+// c15JobsCaptureNoMovingVariable (seeded C15-N).
+func c15JobsCaptureNoMovingVariable(p *Prog, r *Report, rule string) {
+	n := 0
+	for _, k := range sortedFuncKeys(p) {
+		fi := p.Funcs[k]
+		if fi.Decl.Body == nil || !isProductPath(fi.Pkg.PkgPath) {
+			continue
+		}
+		info := fi.Pkg.TypesInfo
+		var jobs []*ast.FuncLit
+		ast.Inspect(fi.Decl.Body, func(x ast.Node) bool {
+			switch st := x.(type) {
+			case *ast.GoStmt:
+				if lit, ok := ast.Unparen(st.Call.Fun).(*ast.FuncLit); ok {
+					jobs = append(jobs, lit)
+				}
+			case *ast.CompositeLit:
+				if tv, ok := info.Types[st]; ok && strings.HasSuffix(tv.Type.String(), "wpool.Event") {
+					for _, el := range st.Elts {
+						if kv, ok := el.(*ast.KeyValueExpr); ok {
+							if id, ok := kv.Key.(*ast.Ident); ok && id.Name == "Fn" {
+								if lit, ok := ast.Unparen(kv.Value).(*ast.FuncLit); ok {
+									jobs = append(jobs, lit)
+								}
+							}
+						}
+					}
+				}
+			}
+			return true
+		})
+		for _, lit := range jobs {
+			n++
+			// free variables of the literal that are locals of the enclosing function
+			free := map[types.Object]bool{}
+			ast.Inspect(lit.Body, func(x ast.Node) bool {
+				id, ok := x.(*ast.Ident)
+				if !ok {
+					return true
+				}
+				v, ok := info.Uses[id].(*types.Var)
+				if !ok || v.IsField() || v.Parent() == nil || v.Parent() == fi.Pkg.Types.Scope() {
+					return true
+				}
+				if v.Pos() >= lit.Pos() && v.Pos() <= lit.End() {
+					return true // declared inside
+				}
+				if v.Pos() < fi.Decl.Pos() || v.Pos() > fi.Decl.End() {
+					return true
+				}
+				free[v] = true
+				return true
+			})
+			// assigned again outside the literal (not the declaration, not inside the literal itself)?
+			bad := ""
+			ast.Inspect(fi.Decl.Body, func(x ast.Node) bool {
+				if x == ast.Node(lit) {
+					return false
+				}
+				note := func(e ast.Expr, at ast.Node, define bool) {
+					id, ok := ast.Unparen(e).(*ast.Ident)
+					if !ok {
+						return
+					}
+					if define && info.Defs[id] != nil {
+						return // the declaration itself
+					}
+					if o := objOf(info, id); o != nil && free[o] {
+						// a named result assigned on the way out is not a job's business (the job is synchronous with
+						// the function when it writes results: errors collected by goroutines are joined before return)
+						bad = o.Name() + " (assigned at " + p.pos(at) + ")"
+					}
+				}
+				switch st := x.(type) {
+				case *ast.AssignStmt:
+					for _, l := range st.Lhs {
+						note(l, st, st.Tok == token.DEFINE)
+					}
+				case *ast.RangeStmt:
+					if st.Tok == token.ASSIGN {
+						if st.Key != nil {
+							note(st.Key, st, false)
+						}
+						if st.Value != nil {
+							note(st.Value, st, false)
+						}
+					}
+				case *ast.IncDecStmt:
+					note(st.X, st, false)
+				}
+				return true
+			})
+			cons := fmt.Sprintf("%s#job at %s", k, p.pos(lit))
+			r.Check(bad == "", rule, cons, p.pos(lit), "captures only variables that are never assigned again",
+				"the job captures the local variable "+bad+" that the enclosing function assigns again: the worker goroutine reads it when the job runs, unsynchronised with that assignment (every job sees whatever value the variable holds then - usually the last one - and the race detector reports the pair)")
+		}
+	}
+	r.Floor(rule, "jobs-and-goroutine-literals", n, 4)
+}
+
+func init() {
+	wrapRule("C11", func(p *Prog, r *Report) {
+		r.Rule("C11.o", "what the gRPC client puts into the metadata of a call is not the user's text: every value given to metadata.AppendToOutgoingContext / Pairs in pkg/external is a constant or a field of the receiver (the transaction id the server issued) - metadata values must be printable ASCII and grpc-go refuses the call otherwise, so a key or content fragment sent that way makes keys the inline client accepts fail with ErrUnknown over gRPC")
+		c11MetadataCarriesNoUserText(p, r, "C11.o")
+	})
+	for id, rule := range map[string]string{"C11": "C11.p", "C10": "C10.o", "C12": "C12.k"} {
+		id, rule := id, rule
+		wrapRule(id, func(p *Prog, r *Report) {
+			r.Rule(rule, "the upload reaches the store use case through the stream reader: in the gRPC SetFile handler the content handed to Set is streamreader.New(stream) itself or a reader built around it (so the end of the stream is io.EOF and a broken stream is an error, seen by Set on its own Read), and the handler itself receives exactly one message, the header (a second Recv would have to tell the end of an empty upload from a failure the way the stream reader does)")
+			c11UploadThroughStreamReader(p, r, rule)
+		})
+	}
+}
+
+// c11MetadataCarriesNoUserText (seeded C11-M).
+func c11MetadataCarriesNoUserText(p *Prog, r *Report, rule string) {
+	n := 0
+	for _, k := range sortedFuncKeys(p) {
+		fi := p.Funcs[k]
+		if fi.Decl.Body == nil || !strings.HasPrefix(shortPath(fi.Pkg.PkgPath), "pkg/external") {
+			continue
+		}
+		info := fi.Pkg.TypesInfo
+		var recv types.Object
+		if fi.Decl.Recv != nil && len(fi.Decl.Recv.List) == 1 && len(fi.Decl.Recv.List[0].Names) == 1 {
+			recv = info.Defs[fi.Decl.Recv.List[0].Names[0]]
+		}
+		ast.Inspect(fi.Decl.Body, func(x ast.Node) bool {
+			c, ok := x.(*ast.CallExpr)
+			if !ok {
+				return true
+			}
+			first := -1
+			switch {
+			case isFunc(info, c, "google.golang.org/grpc/metadata", "AppendToOutgoingContext"):
+				first = 1
+			case isFunc(info, c, "google.golang.org/grpc/metadata", "Pairs"):
+				first = 0
+			case isFunc(info, c, "google.golang.org/grpc/metadata", "New"), isFunc(info, c, "google.golang.org/grpc/metadata", "NewOutgoingContext"):
+				n++
+				r.Undecided(rule, fmt.Sprintf("%s#metadata/%d", k, n), p.pos(c), "metadata built from a map / attached wholesale: the rule follows key-value argument lists only")
+				return true
+			}
+			if first < 0 {
+				return true
+			}
+			n++
+			cons := fmt.Sprintf("%s#metadata/%d", k, n)
+			bad := ""
+			if c.Ellipsis.IsValid() {
+				bad = "a slice spread into the key-value list"
+			}
+			for i := first + 1; i < len(c.Args); i += 2 {
+				a := ast.Unparen(c.Args[i])
+				if tv, ok := info.Types[a]; ok && tv.Value != nil {
+					continue
+				}
+				if sel, ok := a.(*ast.SelectorExpr); ok && recv != nil && objOf(info, sel.X) == recv {
+					continue
+				}
+				bad = types.ExprString(a)
+			}
+			r.Check(bad == "", rule, cons, p.pos(c), "values are constants or fields of the receiver",
+				"the metadata value "+bad+" is not a constant or a field of the handle: user-supplied text (a key) as a metadata value must be printable ASCII - for any other key the call is refused on the client with codes.Internal, which the adapter turns into ErrUnknown, where the inline client stores the key (and a missing key reads as ErrUnknown instead of ErrNotFound)")
+			return true
+		})
+	}
+	r.Floor(rule, "metadata-sites-in-the-grpc-client", n, 1)
+}
+
+// c11UploadThroughStreamReader (seeded C10-N, C11-N).
+func c11UploadThroughStreamReader(p *Prog, r *Report, rule string) {
+	k := "(*" + pkgDelivery + ".Service).SetFile"
+	fi := p.Func(k)
+	if fi == nil {
+		r.Undecided(rule, k, "", "the SetFile handler not found")
+		return
+	}
+	info := fi.Pkg.TypesInfo
+	var stream types.Object
+	for _, po := range paramObjs(fi) {
+		if po != nil && strings.Contains(po.Type().String(), "SetFileServer") {
+			stream = po
+		}
+	}
+	if stream == nil {
+		r.Undecided(rule, k, p.pos(fi.Decl), "no stream parameter")
+		return
+	}
+	f := p.FlatInl(fi)
+	isStreamReader := func(c *ast.CallExpr) bool {
+		return p.callIs(fi.Pkg, c, "internal/utils/grpc/streamreader.New") && len(c.Args) == 1 && objOf(info, c.Args[0]) != nil && f.CanonObj(objOf(info, c.Args[0])) == stream
+	}
+	var derives func(e ast.Expr, depth int) bool
+	derives = func(e ast.Expr, depth int) bool {
+		if depth > 4 {
+			return false
+		}
+		e = ast.Unparen(e)
+		switch x := e.(type) {
+		case *ast.CallExpr:
+			if isStreamReader(x) {
+				return true
+			}
+			for _, a := range x.Args {
+				if derives(a, depth+1) {
+					return true
+				}
+			}
+		case *ast.Ident:
+			if o := objOf(info, x); o != nil {
+				if al, ok := f.Alias[o]; ok {
+					return derives(al, depth+1)
+				}
+				if rhs := singleDefIn(info, fi.Decl.Body, o); rhs != nil {
+					return derives(rhs, depth+1)
+				}
+			}
+		case *ast.UnaryExpr:
+			return derives(x.X, depth+1)
+		case *ast.CompositeLit:
+			for _, el := range x.Elts {
+				if kv, ok := el.(*ast.KeyValueExpr); ok {
+					el = kv.Value
+				}
+				if derives(el, depth+1) {
+					return true
+				}
+			}
+		}
+		return false
+	}
+	sets := 0
+	for _, n := range f.Nodes {
+		if n.Ast == nil {
+			continue
+		}
+		for _, c := range callsIn(n.Ast, false) {
+			if !p.callIs(fi.Pkg, c, kStoreSet) || len(c.Args) < 3 {
+				continue
+			}
+			sets++
+			r.Check(derives(c.Args[2], 0), rule, fmt.Sprintf("%s#content-is-the-stream-reader/%d", k, sets), p.pos(c), "Set reads the stream through streamreader.New(stream)",
+				"the content handed to the store use case ("+types.ExprString(c.Args[2])+") is not the stream reader or a reader around it: what Set reads is decoupled from the stream (a pipe filled by a goroutine, a buffer), so a broken or cancelled upload ends as a clean EOF and the partial content is committed while the client is told about the failure")
+		}
+	}
+	if sets == 0 {
+		r.Undecided(rule, k+"#content-is-the-stream-reader", p.pos(fi.Decl), "the call of the store use case's Set was not found in the handler")
+	}
+	// one Recv: the header
+	recvs := 0
+	last := ""
+	ast.Inspect(fi.Decl.Body, func(x ast.Node) bool {
+		c, ok := x.(*ast.CallExpr)
+		if !ok {
+			return true
+		}
+		if sel, ok := ast.Unparen(c.Fun).(*ast.SelectorExpr); ok && sel.Sel.Name == "Recv" && objOf(info, sel.X) == stream {
+			recvs++
+			last = p.pos(c)
+		}
+		return true
+	})
+	r.Check(recvs == 1, rule, k+"#one-recv-the-header", p.pos(fi.Decl), "the handler receives the header only",
+		fmt.Sprintf("the handler calls stream.Recv %d times (last at %s): a message after the header is content, and its absence - io.EOF - is how an empty upload ends; treated like the header's error it turns Set(key, nil) / Create+Close into ErrUnknown over gRPC where the inline client stores an empty file", recvs, last))
+}
+
+func init() {
+	for id, rule := range map[string]string{"C05": "C05.i", "C04": "C04.k"} {
+		id, rule := id, rule
+		wrapRule(id, func(p *Prog, r *Report) {
+			r.Rule(rule, "the counter means 'last number handed out' on both sides: Load raises it to the largest persisted sequence number M with Set(M), so the first Next() afterwards must answer more than M - Next, evaluated on a counter that holds M, answers the counter's new value (M+1), not its old one (a first write after a restart that gets M again ties with the last write before it, and the next Load picks either)")
+			c05NextAnswersTheNewValue(p, r, rule)
+		})
+	}
+}
+
+// c05NextAnswersTheNewValue (seeded C05-M).
+func c05NextAnswersTheNewValue(p *Prog, r *Report, rule string) {
+	fi := p.Func(kSeqNext)
+	cons := kSeqNext + "#answers-more-than-the-counter-held"
+	if fi == nil || fi.Decl.Body == nil {
+		r.Undecided(rule, cons, "", "sequence.Next not found")
+		return
+	}
+	const held = 5
+	counter := int64(held)
+	adds := 0
+	env := &Env{P: p, Pkg: fi.Pkg, Vars: map[types.Object]*Val{}}
+	env.Hook = func(e *Env, x ast.Expr) (*Val, bool) {
+		c, ok := x.(*ast.CallExpr)
+		if !ok {
+			return nil, false
+		}
+		ci := e.Pkg.TypesInfo
+		if tv, ok := ci.Types[c.Fun]; ok && tv.IsType() && len(c.Args) == 1 {
+			return e.eval(c.Args[0]), true
+		}
+		fn, _ := typeutil.Callee(ci, c).(*types.Func)
+		if fn == nil || fn.Pkg() == nil || fn.Pkg().Path() != "sync/atomic" {
+			return nil, false
+		}
+		delta := func(a ast.Expr) (int64, bool) {
+			v, err := e.Eval(a)
+			if err != nil || v == nil || v.C == nil {
+				return 0, false
+			}
+			return constant.Int64Val(v.C)
+		}
+		switch {
+		case strings.HasPrefix(fn.Name(), "Add") && len(c.Args) >= 1:
+			if d, ok := delta(c.Args[len(c.Args)-1]); ok {
+				adds++
+				counter += d
+				return intVal(counter), true
+			}
+		case strings.HasPrefix(fn.Name(), "Load"):
+			return intVal(counter), true
+		}
+		return nil, false
+	}
+	var ret []*Val
+	var xerr error
+	func() {
+		defer func() {
+			if rec := recover(); rec != nil {
+				if ee, ok := rec.(evalErr); ok {
+					xerr = ee
+					return
+				}
+				panic(rec)
+			}
+		}()
+		ret, _ = env.execBlock(fi.Decl.Body.List)
+	}()
+	if xerr != nil || len(ret) != 1 || ret[0] == nil || ret[0].C == nil {
+		r.Undecided(rule, cons, p.pos(fi.Decl), fmt.Sprintf("Next is outside the evaluator's fragment (%v)", xerr))
+		return
+	}
+	got, _ := constant.Int64Val(ret[0].C)
+	r.Check(got > held && got == counter && adds == 1, rule, cons, p.pos(fi.Decl), fmt.Sprintf("on a counter holding %d Next answers %d and leaves %d", held, got, counter),
+		fmt.Sprintf("on a counter that holds %d (Set(%d) after Load: the largest number in use) Next answers %d and leaves the counter at %d: the first number drawn after a reopen is not above every persisted one (or two consecutive draws can coincide) - an acknowledged write after the restart ties with the last write before it, and the next reopen may prefer the older", held, held, got, counter))
+}
+
+func init() {
+	wrapRule("C16", func(p *Prog, r *Report) {
+		r.Rule("C16.h", "the pool counts as stopped only when Stop is through: whatever admits the next Run (the running mutex released, an atomic running flag set to false) happens in Stop after its waits for the senders and the workers, or in a deferred call - a Run admitted while Stop still waits installs a new context and channel under it, jobs sent to the pool being stopped are executed, and the pending Stop waits on workers that no longer end")
+		c16StoppedOnlyWhenThrough(p, r, "C16.h")
+	})
+}
+
+// c16StoppedOnlyWhenThrough (seeded C16-M).
+func c16StoppedOnlyWhenThrough(p *Prog, r *Report, rule string) {
+	fi := p.Func(kPoolStop)
+	cons := kPoolStop + "#flag-released-after-the-waits"
+	if fi == nil {
+		r.Undecided(rule, cons, "", "Pool.Stop not found")
+		return
+	}
+	info := fi.Pkg.TypesInfo
+	f := p.FlatInl(fi)
+	isFalse := func(e ast.Expr) bool {
+		tv, ok := info.Types[e]
+		return ok && tv.Value != nil && tv.Value.Kind() == constant.Bool && !constant.BoolVal(tv.Value)
+	}
+	var releases, waits []int
+	for _, n := range f.Nodes {
+		if n.Ast == nil {
+			continue
+		}
+		if _, isDefer := n.Ast.(*ast.DeferStmt); isDefer {
+			continue
+		}
+		for _, c := range callsIn(n.Ast, false) {
+			if p.isWaitGroupOp(fi.Pkg, c, "Wait") {
+				waits = append(waits, n.ID)
+			}
+			if op := p.lockOpOf(fi.Pkg, c); op != nil && !op.Acquire && op.Class == clsRunM {
+				releases = append(releases, n.ID)
+			}
+			// an atomic flag of the pool set to false
+			if fn, _ := typeutil.Callee(info, c).(*types.Func); fn != nil && fn.Pkg() != nil && fn.Pkg().Path() == "sync/atomic" {
+				if sel, ok := ast.Unparen(c.Fun).(*ast.SelectorExpr); ok {
+					if _, onField := ast.Unparen(sel.X).(*ast.SelectorExpr); onField {
+						switch fn.Name() {
+						case "Store", "Swap":
+							if len(c.Args) == 1 && isFalse(c.Args[0]) {
+								releases = append(releases, n.ID)
+							}
+						case "CompareAndSwap":
+							if len(c.Args) == 2 && isFalse(c.Args[1]) {
+								releases = append(releases, n.ID)
+							}
+						}
+					}
+				}
+			}
+		}
+	}
+	if len(waits) == 0 {
+		r.Undecided(rule, cons, p.pos(fi.Decl), "Stop waits for no wait group")
+		return
+	}
+	bad := ""
+	for _, rel := range releases {
+		reach := f.Reach(f.succsOf(rel), nil, nil)
+		for _, w := range waits {
+			if reach[w] {
+				bad = p.pos(f.Nodes[rel].Ast)
+			}
+		}
+	}
+	r.Check(bad == "", rule, cons, p.pos(fi.Decl), fmt.Sprintf("%d waits, nothing re-admits Run before them", len(waits)),
+		"Stop marks the pool as not running at "+bad+" and waits for the senders / workers afterwards: a Run that overlaps the waiting Stop is admitted, replaces the context and the channel and adds workers to the very wait group Stop waits on - the Stop never returns (or closes the new channel under the new workers)")
 }
